@@ -182,7 +182,7 @@ theorem inv_sendFailUp (s : St) (h : Inv s) : Inv (step s .sendFailUp) := by
 
 theorem inv_addDownOther (s : St) (h : Inv s) : Inv (step s .addDownOther) := by
   obtain ⟨alive, sync, down, uh, ud, cs, raa, bl, uo, up, depth, dother⟩ := s
-  simp only [step]; split <;> first | exact h | (obtain ⟨h1, h2, h3, h4, h5, h6, h7, h8⟩ := h; fwd_cases)
+  simp only [step]; obtain ⟨h1, h2, h3, h4, h5, h6, h7, h8⟩ := h; fwd_cases
 
 theorem inv_removeDownOther (s : St) (h : Inv s) : Inv (step s .removeDownOther) := by
   simp only [step]; split
